@@ -1,4 +1,5 @@
 import PyatvModel.C02.Lemmas
+import PyatvModel.Base.FramingLayered
 /-
 C02 — message framing is independent of how the byte stream is segmented.
 
@@ -92,6 +93,53 @@ theorem C02_httpServer : SegmentationIndependent httpServer := C02_http requestP
 /-- `EventChannel.handle_received` cuts requests exactly as the server does -/
 theorem C02_eventChannel : SegmentationIndependent httpServer := C02_http requestParams
 
+/-! ## Valid streams meet the hypothesis (`validStream_noErr`) -/
+
+/-- a stream of well-formed HTTP messages is processed without error and yields them -/
+theorem valid_http (P : HttpParams) (ms : List (Bytes × Bytes)) (h : ∀ m ∈ ms, HttpWF P m) :
+    NoErr (http P) [ms.flatMap httpEnc] ∧ (feed (http P) [] (ms.flatMap httpEnc)).msgs = ms := by
+  unfold NoErr
+  simp only [List.flatten_cons, List.flatten_nil, List.append_nil, feed_eq_drainAll, List.nil_append,
+    http_valid_noErr P ms h, and_self]
+
+/-- a stream of well-formed data-stream frames is processed without error and yields them -/
+theorem valid_dataStream (ms : List (Bytes × Bytes)) (h : ∀ m ∈ ms, DataWF m) :
+    NoErr dataStream [ms.flatMap dataEnc] ∧ (feed dataStream [] (ms.flatMap dataEnc)).msgs = ms := by
+  unfold NoErr
+  simp only [List.flatten_cons, List.flatten_nil, List.append_nil, feed_eq_drainAll, List.nil_append,
+    dataStream_valid_noErr ms h, and_self]
+
+/-! ## Layered channels: HAP blocks below, message framer above -/
+
+/-- both layers process the unsplit stream without error (`dec` = the AEAD, any) -/
+def LNoErr {U σ : Type} (L : Layered (Bytes × Bytes) U σ) (cs0 : σ) (chunks : List Bytes) : Prop :=
+  (drainAll L.lower chunks.flatten).err = none ∧
+  (drainAll L.upper (decAll L.dec cs0 (drainAll L.lower chunks.flatten).msgs).2).err = none
+
+/-- **C02, AirPlay data channel** (`DataStreamChannel` over `HAPSession`): for every AEAD
+    behaviour `dec`, every initial cipher state and every segmentation. -/
+theorem C02_dataChannel {σ : Type} (dec : σ → Bytes × Bytes → σ × Bytes) (cs0 : σ) (chunks : List Bytes)
+    (h : LNoErr ⟨hap, dec, dataStream⟩ cs0 chunks) :
+    lfeedAll ⟨hap, dec, dataStream⟩ (LState.init cs0) chunks
+      = lfeedAll ⟨hap, dec, dataStream⟩ (LState.init cs0) [chunks.flatten] :=
+  lfeedAll_concat ⟨hap, dec, dataStream⟩ hap_prefixStable dataStream_prefixStable cs0 chunks h.1 h.2
+
+/-- **C02, HTTP/RTSP over HAP** (`HttpConnection.receive_processor = HAPSession.decrypt`,
+    `EventChannel`, encrypted `BasicHttpServer`), for every header interpretation `P`. -/
+theorem C02_httpOverHap {σ : Type} (P : HttpParams) (dec : σ → Bytes × Bytes → σ × Bytes) (cs0 : σ)
+    (chunks : List Bytes) (h : LNoErr ⟨hap, dec, http P⟩ cs0 chunks) :
+    lfeedAll ⟨hap, dec, http P⟩ (LState.init cs0) chunks
+      = lfeedAll ⟨hap, dec, http P⟩ (LState.init cs0) [chunks.flatten] :=
+  lfeedAll_concat ⟨hap, dec, http P⟩ hap_prefixStable (http_prefixStable P) cs0 chunks h.1 h.2
+
+/-- generic form: any two prefix-stable framers stacked -/
+theorem C02_layered {B U σ : Type} (L : Layered B U σ) (hl : PrefixStable L.lower)
+    (hu : PrefixStable L.upper) (cs0 : σ) (chunks : List Bytes)
+    (hlo : (drainAll L.lower chunks.flatten).err = none)
+    (huo : (drainAll L.upper (decAll L.dec cs0 (drainAll L.lower chunks.flatten).msgs).2).err = none) :
+    lfeedAll L (LState.init cs0) chunks = lfeedAll L (LState.init cs0) [chunks.flatten] :=
+  lfeedAll_concat L hl hu cs0 chunks hlo huo
+
 /-! ## "leaves the connection usable" and the layer above -/
 
 /-- after any segmentation the next read is processed exactly as after the unsplit stream -/
@@ -111,6 +159,14 @@ theorem C02_delivered {M σ D : Type} {f : Framer M} (hs : PrefixStable f)
 theorem C02_any_two {M : Type} {f : Framer M} (hs : PrefixStable f) (c1 c2 : List Bytes)
     (hsame : c1.flatten = c2.flatten) (hok : NoErr f c1) : feedAll f c1 = feedAll f c2 :=
   feedAll_segmentation_irrel hs c1 c2 hsame hok
+
+/-- the per-read trace the Lean driver prints (and the harness compares with the real
+    object read by read) is the run `feedAll` the theorems are about -/
+theorem C02_trace {M : Type} (f : Framer M) (chunks : List Bytes) :
+    feedAll f chunks = ⟨(feedTrace f [] chunks).flatMap (·.msgs),
+                        ((feedTrace f [] chunks).getLast?.map (·.rest)).getD [],
+                        (feedTrace f [] chunks).getLast?.bind (·.err)⟩ :=
+  feedTrace_feedAll f chunks
 
 /-- the receive loop makes at most `length+1` extraction attempts (shared with C05) -/
 theorem C02_loop_bound {M : Type} {f : Framer M} (hs : PrefixStable f) (n : Nat) (b : Bytes) :
@@ -158,5 +214,31 @@ example : feedAll httpClient
        [10, 97, 98, 99, 82]]
     = ⟨[([72, 84, 84, 80, 47, 49, 46, 49, 32, 50, 48, 48, 32, 79, 75, 13, 10, 67, 111, 110, 116, 101, 110, 116, 45, 76, 101, 110, 103, 116, 104, 58, 32, 51],
          [97, 98, 99])], [82], none⟩ := by decide
+
+/-- well-formed HTTP message exists (header `A`, body 2 bytes, `clen = 2`) -/
+example : HttpWF ⟨fun _ => some 2, fun _ => true⟩ ([65], [1, 2]) :=
+  ⟨fun x => by simp [splitSep, crlf2, List.isPrefixOf], rfl, rfl⟩
+
+/-- well-formed data-stream frame exists: size field 35 = 32 + 3 -/
+example : DataWF ([0, 0, 0, 35] ++ List.replicate 28 7, [1, 2, 3]) := ⟨by decide, by decide⟩
+
+/-- layered: a toy AEAD that "opens" a block to its ciphertext minus the tag -/
+def toyL : Layered (Bytes × Bytes) (Bytes × Bytes) Nat :=
+  ⟨hap, fun n b => (n + 1, b.2.take (b.2.length - 16)), http ⟨fun _ => some 1, fun _ => true⟩⟩
+
+def toyTag : Bytes := List.replicate 16 0
+
+/-- one HTTP message (`A`, CRLFCRLF, 1 body byte) spread over two HAP blocks; reads cut
+    inside the length, the body and the tag -/
+def toyStream : List Bytes :=
+  [[3], [0, 65, 13], [10] ++ toyTag.take 5, toyTag.drop 5 ++ [3, 0, 13, 10, 9] ++ toyTag]
+
+example : (drainAll toyL.lower toyStream.flatten).err = none ∧
+    (drainAll toyL.upper (decAll toyL.dec 0 (drainAll toyL.lower toyStream.flatten).msgs).2).err = none := by
+  decide
+
+example : (lfeedAll toyL (LState.init 0) toyStream).out = [([65], [9])]
+    ∧ (lfeedAll toyL (LState.init 0) toyStream).cs = 2
+    ∧ (lfeedAll toyL (LState.init 0) toyStream).err = none := by decide
 
 end PyatvModel.Props.C02
